@@ -17,6 +17,7 @@ from . import env
 mon = sys.monitoring
 E = mon.events
 
+TOOL_REACH = 1
 TOOL_STEPS = 3
 TOOL_CALLS = 4
 TOOL_YIELD = 5
@@ -200,3 +201,73 @@ class YieldInjector(object):
             mon.register_callback(TOOL_YIELD, E.LINE, None)
             mon.free_tool_id(TOOL_YIELD)
             self.active = False
+
+
+
+class Reach(object):
+    """Which lines of hotxlfp the workload of this process executed (a witness of reach, never a verdict).
+
+    One LINE callback per location: it records (file, line) for files under REPO/hotxlfp and returns DISABLE, so every
+    location costs one event for the life of the process."""
+
+    def __init__(self):
+        self.lines = set()
+        self.root = os.path.join(env.REPO, 'hotxlfp') + os.sep
+        self.active = False
+
+    def _line(self, code, line):
+        fn = code.co_filename
+        if fn.startswith(self.root):
+            self.lines.add((fn[len(self.root):], line))
+        return mon.DISABLE
+
+    def start(self):
+        try:
+            _claim(TOOL_REACH, 'hxmon-reach')
+            mon.register_callback(TOOL_REACH, E.LINE, self._line)
+            mon.set_events(TOOL_REACH, E.LINE)
+            self.active = True
+        except Exception:
+            self.active = False
+        return self
+
+    def stop(self):
+        if self.active:
+            mon.set_events(TOOL_REACH, 0)
+            mon.register_callback(TOOL_REACH, E.LINE, None)
+            mon.free_tool_id(TOOL_REACH)
+            self.active = False
+        out = {}
+        for f, l in self.lines:
+            out.setdefault(f, []).append(l)
+        return {f: sorted(v) for f, v in out.items()}
+
+
+def executable_lines(path):
+    """line numbers that carry code in a source file (from the compiled code objects; the `def`/`class`/decorator lines run at
+    import and count too)"""
+    with open(path) as f:
+        src = f.read()
+    todo, lines = [compile(src, path, 'exec')], set()
+    while todo:
+        co = todo.pop()
+        for _, _, ln in co.co_lines():
+            if ln is not None and ln > 0:
+                lines.add(ln)
+        todo.extend(c for c in co.co_consts if hasattr(c, 'co_lines'))
+    return lines
+
+
+def ranges(nums):
+    out, start, prev = [], None, None
+    for n in sorted(nums):
+        if start is None:
+            start = prev = n
+        elif n == prev + 1:
+            prev = n
+        else:
+            out.append('%d' % start if start == prev else '%d-%d' % (start, prev))
+            start = prev = n
+    if start is not None:
+        out.append('%d' % start if start == prev else '%d-%d' % (start, prev))
+    return out
